@@ -468,7 +468,7 @@ func runTrace(t *testing.T, bind *Binding, job *Job, res *Result) {
 
 func propertyForFamily(f string) string {
 	switch f {
-	case "wire":
+	case "wire", "byname":
 		return "C01"
 	case "subst":
 		return "C03"
